@@ -65,7 +65,7 @@ theorem ppCands_mid (possible : List ChordV2) (layer since : Nat) (A0 : List Act
       rfl
 
 /-- a step that activates nothing: two or more candidates, or a single incomplete one -/
-theorem ppStep_mid (possible : List ChordV2) (layer since : Nat) (relFound : Bool) (minIdle : Nat)
+theorem ppStep_mid (possible : List ChordV2) (layer since : Nat) (relFound : Option Nat) (minIdle : Nat)
     (A0 : List ActiveChord) (T0 : Nat) (pre : List Nat) (st : PP) (p : Nat)
     (hm : Mid possible layer since A0 T0 pre st)
     (hne : Fk possible layer (pre ++ [p]) ≠ [])
@@ -85,17 +85,17 @@ theorem ppStep_mid (possible : List ChordV2) (layer since : Nat) (relFound : Boo
     exact ⟨_, rfl, ⟨rfl, rfl, hm.active, hm.tti, Or.inr ⟨by rw [hF]; rfl, by rw [hF], by rw [hF]⟩⟩⟩
 
 /-- the step that completes the only remaining candidate -/
-theorem ppStep_complete (possible : List ChordV2) (layer since : Nat) (relFound : Bool) (minIdle : Nat)
+theorem ppStep_complete (possible : List ChordV2) (layer since : Nat) (relFound : Option Nat) (minIdle : Nat)
     (A0 : List ActiveChord) (T0 : Nat) (pre : List Nat) (st : PP) (p : Nat) (x : ChordV2)
     (hm : Mid possible layer since A0 T0 pre st)
     (hF : Fk possible layer (pre ++ [p]) = [x]) (hcomp : x.keys.all ((pre ++ [p]).contains ·) = true)
     (hroom : A0.length < ACTIVE_CHORDS_CAP) :
     ∃ st', ppStep possible layer since relFound minIdle st p = .ok st' ∧
       st'.done = true ∧ st'.acc = pre ++ [p] ∧ st'.ticksToIgnore = T0 ∧ st'.ticksUntil = st.ticksUntil ∧
-      st'.active = A0 ++ [getActiveChord x since st.nextCoord relFound] := by
+      st'.active = A0 ++ [getActiveChord x since (freeCoord st.active st.nextCoord) relFound] := by
   unfold ppStep
-  have hp : pushActive st.active (getActiveChord x since st.nextCoord relFound) =
-      .ok (st.active ++ [getActiveChord x since st.nextCoord relFound]) := by
+  have hp : pushActive st.active (getActiveChord x since (freeCoord st.active st.nextCoord) relFound) =
+      .ok (st.active ++ [getActiveChord x since (freeCoord st.active st.nextCoord) relFound]) := by
     unfold pushActive
     rw [if_pos (by rw [hm.active]; exact hroom)]
   have ht : List.take SMOL_Q_LEN [x] = [x] := rfl
@@ -104,7 +104,7 @@ theorem ppStep_complete (possible : List ChordV2) (layer since : Nat) (relFound 
     List.head?_cons, hcomp, if_true, hp]
   exact ⟨_, rfl, rfl, rfl, hm.tti, rfl, by rw [hm.active]⟩
 
-theorem ppLoop_done (possible : List ChordV2) (layer since : Nat) (relFound : Bool) (minIdle : Nat) :
+theorem ppLoop_done (possible : List ChordV2) (layer since : Nat) (relFound : Option Nat) (minIdle : Nat) :
     ∀ (rest : List Nat) (st : PP), st.done = true → ppLoop possible layer since relFound minIdle rest st = .ok st := by
   intro rest
   induction rest with
@@ -121,7 +121,7 @@ chord `C`, whose key set is exactly `ps`; the loop has accumulated `pre` without
 ends either without activation, the candidate list being the chords that contain all of `ps` (at
 least two of them: `C` and a strict superset), or — when `C` is the only such chord — with `C`
 activated on the last key. -/
-theorem ppLoop_chord (possible : List ChordV2) (layer since : Nat) (relFound : Bool) (minIdle : Nat)
+theorem ppLoop_chord (possible : List ChordV2) (layer since : Nat) (relFound : Option Nat) (minIdle : Nat)
     (A0 : List ActiveChord) (T0 : Nat) (ps : List Nat) (C : ChordV2)
     (hnd : ps.Nodup) (hC : C ∈ possible) (hen : enabledOn layer C = true) (hex : exactMatch ps C = true)
     (hroom : A0.length < ACTIVE_CHORDS_CAP) :
